@@ -948,7 +948,12 @@ fn sanitize(name: &str) -> String {
 /// Split the text of a .glyphs file into a .glyphspackage directory: `fontinfo.plist` is the text with the
 /// top-level `glyphs = (…);` entry cut out, `glyphs/*.glyph` are the verbatim texts of the elements of
 /// that array, `order.plist` lists the glyph names in file order (font.rs:2254 `load_package`).
-pub fn write_package(text: &str, top: &Node, dir: &Path) -> Result<(), String> {
+pub fn write_package(text: &str, top: &Node, dir: &Path) -> Result<(), String> { write_package_listing(text, top, dir, None).map(|_| ()) }
+
+/// `partial`: list in `order.plist` only the glyphs before the longest tail of the file order that is already in
+/// ascending name order — `load_package` appends glyph files that `order.plist` does not name sorted by name, so that
+/// package is the same design. Returns the number of glyphs left out of `order.plist` (0 = none could be).
+pub fn write_package_listing(text: &str, top: &Node, dir: &Path, partial: Option<()>) -> Result<usize, String> {
     let Node::Dict(es) = top else { return Err("top level is not a dictionary".into()) };
     let Some(ge) = es.iter().find(|e| e.key.text == "glyphs") else { return Err("no glyphs entry".into()) };
     let Node::Arr(gs) = &ge.val else { return Err("glyphs is not an array".into()) };
@@ -971,6 +976,13 @@ pub fn write_package(text: &str, top: &Node, dir: &Path) -> Result<(), String> {
     dedup.dedup();
     if dedup.len() != names.len() {
         return Err("duplicate glyph names (a package cannot hold them)".into());
+    }
+    let mut unlisted = 0;
+    if partial.is_some() {
+        let mut k = names.len().saturating_sub(1);
+        while k > 0 && names[k - 1] < names[k] { k -= 1; }
+        unlisted = names.len() - k;
+        if unlisted < 2 { unlisted = 0; } else { names.truncate(k); }
     }
     let mut order = String::from("(\n");
     for (i, n) in names.iter().enumerate() {
@@ -995,7 +1007,7 @@ pub fn write_package(text: &str, top: &Node, dir: &Path) -> Result<(), String> {
     }
     order.push_str(")\n");
     std::fs::write(dir.join("order.plist"), order).map_err(|e| e.to_string())?;
-    Ok(())
+    Ok(unlisted)
 }
 
 // ------------------------------------------------------------------------------------------------
@@ -1238,6 +1250,14 @@ fn routes_glyphs(src: &Path, tmp: &Path, rng: &mut Rng, tags: &mut Vec<String>) 
                     rs.push(Route { name: "package-cli".into(), built: cli_build(&pkg, tmp, "pkgcli") });
                 }
                 Err(e) => tags.push(format!("no-package:{}", e.split(' ').next().unwrap_or(""))),
+            }
+            // the same package with an order.plist that leaves out a tail of glyphs which is in name order anyway
+            let pkg2 = tmp.join(format!("{stem}-partial.glyphspackage"));
+            if let Ok(unlisted) = write_package_listing(&text, &top, &pkg2, Some(())) {
+                if unlisted >= 2 {
+                    tags.push("package-partial-order".into());
+                    rs.push(Route { name: "package-partial-order".into(), built: lib_build_path(&pkg2) });
+                }
             }
             let mut styles = vec![(1u8, "reprint-lines", true), (0, "reprint-compact", true), (2, "reprint-spaced", true)];
             if has_unicode_list(&top) {
